@@ -498,6 +498,14 @@ class CompiledChemicals(Chemicals):
             composition_mol = composition
         self._group_wt_compositions[name] = composition_wt / composition_wt.sum()
         self._group_mol_compositions[name] = composition_mol / composition_mol.sum()
+        self._reset_index_caches()
+    
+    def _reset_index_caches(self):
+        # Memoized (index, kind) pairs may refer to a name whose meaning just changed.
+        self._index_cache.clear()
+        from .indexer import MaterialIndexer
+        for (phases, chemicals), cache in MaterialIndexer._index_caches.items():
+            if chemicals is self: cache.clear()
     
     @property
     def chemical_groups(self) -> frozenset[str]:
@@ -725,6 +733,7 @@ class CompiledChemicals(Chemicals):
         if alias in dct and dct[alias] is not chemical:
             raise ValueError(f"alias '{alias}' already in use by {repr(dct[alias])}")
         else:
+            if alias not in dct: self._reset_index_caches()
             self._index[alias] = self._index[ID]
             dct[alias] = chemical
         chemical.aliases.add(alias)
